@@ -137,7 +137,7 @@ func addKeyword(t *rapid.T, o Options, s map[string]any, dom string, depth int) 
 		for i := 0; i < n; i++ {
 			var v any
 			if o.StringyEnum {
-				v = rapid.SampledFrom([]any{"a", "ab", "", "12", "e1", "e2"}).Draw(t, "sev")
+				v = rapid.SampledFrom([]any{"a", "ab", "", "12", "e1", "e2", "approved", "pending-review"}).Draw(t, "sev")
 			} else {
 				v = rapid.SampledFrom(enumPool).Draw(t, "ev")
 			}
